@@ -50,3 +50,67 @@ func VerifC01(args []string) {
 		vfAssert(berr != nil, "EvalBool fails when Eval fails")
 	}
 }
+
+func init() {
+	vfRegister("VerifC01Literal", VerifC01Literal)
+}
+
+// VerifC01Literal: args = [skeleton, context]. An integer literal written with an optional
+// minus sign and decimal digits (d = an arbitrary digit, other characters as they are) denotes
+// its decimal value, wherever it is written: as an operand, inside a list literal, in infix
+// notation.
+func VerifC01Literal(args []string) {
+	sk, where := args[0], args[1]
+	var runes []rune
+	val := int64(0)
+	neg := false
+	n := 0
+	for i := 0; i < len(sk); i++ {
+		c := rune(sk[i])
+		if c == '-' {
+			neg = true
+			runes = append(runes, c)
+			continue
+		}
+		if c == 'd' {
+			c = vfRune("lit." + string(rune('0'+n)))
+			n++
+			vfAssume(c >= '0' && c <= '9')
+		}
+		runes = append(runes, c)
+		val = val*10 + int64(c-'0')
+	}
+	if neg {
+		val = -val
+	}
+	lit := string(runes)
+	x := vfInt64("x")
+	conf := NewConfig(Optimizations(false))
+	conf.VariableKeyMap["x"] = 1
+	var src string
+	var want Value
+	switch where {
+	case "operand":
+		src, want = "(+ "+lit+" x)", val+x
+	case "only":
+		src, want = "(+ "+lit+" 0)", val
+	case "list":
+		src, want = "(in x ("+lit+" 5))", x == val || x == 5
+	case "infix":
+		conf.CompileOptions[InfixNotation] = true
+		src, want = "x + "+lit+" * 2", x+val*2
+	case "infix-list":
+		conf.CompileOptions[InfixNotation] = true
+		src, want = "in(x, ["+lit+" 5])", x == val || x == 5
+	case "folded":
+		conf = NewConfig()
+		conf.VariableKeyMap["x"] = 1
+		src, want = "(+ x (- "+lit+" 1))", x+(val-1)
+	}
+	e, err := Compile(conf, src)
+	vfAssert(err == nil && e != nil, "an expression with a decimal integer literal compiles")
+	got, gerr := e.Eval(&Ctx{VariableFetcher: MapVarFetcher(map[string]Value{"x": x})})
+	vfReach("literal")
+	vfAssert(gerr == nil, "an expression with a decimal integer literal evaluates")
+	vfAssert(got == want, "an integer literal does not denote its decimal value")
+}
